@@ -98,11 +98,14 @@ func buildProbe(kind string, n int) (f *mvnFake, name, version string, ok bool) 
 		}
 		f.put(name, version, mvn(m))
 	case "nilactivation":
-		// a profile without <activation>: the submessage is absent
-		f.put(name, version, mvn(&pb.Requirements_Maven{Profiles: []*pb.Requirements_Maven_Profile{{Id: "p", Dependencies: []*pb.Requirements_Maven_Dependency{pdep("g:x", "1")}}}}))
+		// a profile without <activation> (the submessage is absent: F-C15-h, fixed) is not active by default
+		f.put(name, version, mvn(&pb.Requirements_Maven{Dependencies: []*pb.Requirements_Maven_Dependency{pdep("g:y", "1")},
+			Profiles: []*pb.Requirements_Maven_Profile{{Id: "p", Dependencies: []*pb.Requirements_Maven_Dependency{pdep("g:x", "1")}}}}))
 	case "nilactprop":
-		f.put(name, version, mvn(&pb.Requirements_Maven{Profiles: []*pb.Requirements_Maven_Profile{{Id: "p",
-			Activation: &pb.Requirements_Maven_Profile_Activation{Property: &pb.Requirements_Maven_Profile_Activation_Property{}}}}}))
+		f.put(name, version, mvn(&pb.Requirements_Maven{Dependencies: []*pb.Requirements_Maven_Dependency{pdep("g:y", "1")},
+			Profiles: []*pb.Requirements_Maven_Profile{{Id: "p",
+				Activation:   &pb.Requirements_Maven_Profile_Activation{ActiveByDefault: "true", Property: &pb.Requirements_Maven_Profile_Activation_Property{}},
+				Dependencies: []*pb.Requirements_Maven_Dependency{pdep("g:x", "1")}}}}))
 	case "actall":
 		f.put(name, version, mvn(&pb.Requirements_Maven{Profiles: []*pb.Requirements_Maven_Profile{{Id: "p",
 			Activation: &pb.Requirements_Maven_Profile_Activation{
@@ -282,23 +285,15 @@ func probeVerdict(op, res string) (bool, string) {
 		return want(!okRes && calls == 1+max(n, 1), "a cycle of parents is an error after exactly one round")
 	case "notfound", "parentmissing", "rpcerr", "parentrpcerr", "bundle", "deadline", "emptyname":
 		return want(!okRes, "must be an error")
+	case "nilactivation":
+		return want(okRes && strings.Contains(res, "R[673a79/31/") && !strings.Contains(res, "673a78/"), "a profile without activation is not active by default: only g:y")
+	case "nilactprop":
+		return want(okRes && strings.Contains(res, "673a79/31/") && strings.Contains(res, "673a78/31/"), "the default profile with an empty activation property is merged: g:y and g:x")
+	case "pipeexcl":
+		return want(okRes && strings.Contains(res, "/e=-]") && strings.HasSuffix(res, "back=1/0/0"), "the exclusion with a pipe is left out and the type converts back")
 	case "nilmaven", "parentnil", "depnocolon", "exclnocolon", "propcycle", "actall", "imports", "importcycle", "selfimport", "repos", "emptyparent", "dupdeps", "hugeprops", "colononly":
 		return want(okRes, "must succeed")
 	}
 	return false, ""
 }
 
-// probeFinding: the decidable classifier of the two totality findings.
-func probeFinding(op string) string {
-	f := strings.Fields(op)
-	if len(f) != 5 || f[1] != "probe" {
-		return ""
-	}
-	switch f[3] {
-	case "nilactivation", "nilactprop":
-		return "F-C15-h"
-	case "pipeexcl":
-		return "F-C15-i"
-	}
-	return ""
-}
